@@ -233,12 +233,12 @@ def run_natural(rng, out, orc, known):
                 break
 
 
-def run_injected(rng, out, orc, known, nmax):
+def run_injected(rng, out, orc, known, nmax, fixed_n=None, fixed_mode=None, sseed=None):
     k = rng.randint(1, 3)
-    sc = Scenario(rng, k, None, 0)
+    sc = Scenario(random.Random(sseed) if sseed is not None else rng, k, None, 0)
     probes = sc.probes()
-    mode = rng.choice(["first", "rebuild", "miss"])
-    n = rng.randint(1, nmax)
+    mode = fixed_mode or rng.choice(["first", "rebuild", "miss"])
+    n = fixed_n if fixed_n is not None else rng.randint(1, nmax)
     wit = {"kind": "build-injected", "k": k, "mode": mode, "line_event": n}
     ov = sc.build(list(range(k)) if mode != "rebuild" else list(range(k - 1)) or [0])
     tags = list(range(k))
@@ -382,6 +382,19 @@ def worker(payload):
     for kx, v in stats.items():
         out["hist"]["layer I: " + kx] = v
     out["hist"]["layer I: states the model calls unsafe (all in the D34 window)"] = len(unsafe)
+    if opts.get("sweep"):
+        # thorough tier: for a few scenarios, EVERY executed library line of first-use build, rebuild and cache-miss
+        # resolution is a failure point
+        for _ in range(3):
+            sseed = rng.randrange(2**31)
+            for mode in ("first", "rebuild", "miss"):
+                line = 1
+                while line < 5000:
+                    fired = run_injected(random.Random(sseed + 1), out, orc, known, 0, fixed_n=line, fixed_mode=mode, sseed=sseed)
+                    if not fired:
+                        break
+                    out["hist"]["exhaustive failure points: " + mode] = out["hist"].get("exhaustive failure points: " + mode, 0) + 1
+                    line += 1
     for i in range(n):
         out["ops"] += 1
         if i % 2 == 0:
